@@ -42,15 +42,35 @@ def refinement_on_model(ctx, rows):
 
 
 def strip_names(rows):
-    """the same sheet inside the fragment of the refinement theorem: no category names, no node ids / node names"""
+    """the same sheet inside the fragment of the refinement theorem: no node ids / node names"""
     import copy
     rows = copy.deepcopy(rows)
     for r in rows:
-        for e in r["edges"]:
-            e["name"] = ""
         r.pop("node_uuid", None)
         r.pop("node_name", None)
     return rows
+
+
+def name_clashes(rows):
+    """explicit category names of the sheet that are also a name the compiler invents for a condition of the sheet
+    (generate_category_name: the arguments title-cased and joined by "_", "_alt" appended while taken), "Other" (the
+    default category) or "No Response" - Comp/Refine.v: gnameb"""
+    invented = {"Other", "No Response"}
+    for r in rows:
+        for e in r["edges"]:
+            invented.add(e["value"].title())
+            invented.add("None_" + e["value"].title())
+    out = set()
+    for r in rows:
+        for e in r["edges"]:
+            nm = e["name"]
+            while nm:
+                if nm in invented:
+                    out.add(e["name"])
+                if not nm.endswith("_alt"):
+                    break
+                nm = nm[:-4]
+    return out
 
 
 def has_group_from_noop(rows):
@@ -88,7 +108,11 @@ def judge(ctx, rows, layout_rng, nontrivial, samples, wf=True):
         if m and wf:
             ref = m.ask("(7 1 %s)" % rs)
             if ref != "()":
-                if r[1] == "IndexError" and any(e["ctype"] == "has_group" and e["value"] for x in rows for e in x["edges"]):
+                if r[1] == "critical" and name_clashes(rows) & {"Other", "No Response"}:
+                    # a tree that refuses a category named like the default / No Response category (one way of repairing
+                    # the finding category-name-clash) complies: there is no compiled flow to judge
+                    ctx.count("rejected: explicit category name of a reserved category")
+                elif r[1] == "IndexError" and any(e["ctype"] == "has_group" and e["value"] for x in rows for e in x["edges"]):
                     # the only IndexError a has_group test can cause: SwitchRouter.record_global_uuids reads arguments[1]
                     frm = "leaving a no_op decision" if has_group_from_noop(rows) else "of a row that is not a group split"
                     v.failing_input("has_group-condition-from-no_op" if has_group_from_noop(rows) else "has_group-condition-outside-group-split",
@@ -121,7 +145,10 @@ def judge(ctx, rows, layout_rng, nontrivial, samples, wf=True):
         if tr is None:
             ctx.disagree("checker rejects but no distinguishing sequence found", dict(rows=rows), "2", "")
         else:
-            v.failing_input("control-flow-differs", f"input/outcome sequence {tr!r} separates the rows' meaning from the compiled flow",
+            clash = name_clashes(rows)
+            v.failing_input("category-name-clash" if clash else "control-flow-differs",
+                            (f"explicit category name(s) {sorted(clash)!r} are also the name of another category of the router; " if clash else "")
+                            + f"input/outcome sequence {tr!r} separates the rows' meaning from the compiled flow",
                             dict(headers=headers, cells=[[c.get(h, "") for h in headers] for c in cells], rows=rows, trace=tr))
     else:
         ctx.disagree("model could not read the case", dict(rows=rows), res, "")
@@ -135,11 +162,11 @@ def run(ctx):
         rng = ctx.rng
         wf = rng.random() > 0.12
         rows, g = sheetgen.gen_core_sheet(rng, rng.choice([2, 3, 4, 6, 10, 15]), wf=wf, special_text=rng.random() < 0.6,
-                                          has_group=rng.random() < 0.4)
+                                          has_group=rng.random() < 0.4, clash_names=rng.random() < 0.3)
         if not rows:
             continue
         judge(ctx, rows, rng, nontrivial, samples, wf=wf)
-    # the same kind of sheets inside the fragment of the refinement theorem (unnamed categories, no node ids)
+    # the same kind of sheets inside the fragment of the refinement theorem (no node ids)
     for i in range(n // 4):
         rng = ctx.rng
         rows, g = sheetgen.gen_core_sheet(rng, rng.choice([2, 4, 6, 10, 15]), wf=True, special_text=rng.random() < 0.5)
